@@ -54,14 +54,18 @@ ObsTags(o) ==
   \cup (IF o[10] # porta' THEN {<<"C18", "portamento-switch">>} ELSE {})
   \cup (IF o[11] # sust'  THEN {<<"C18", "sustain-switch">>} ELSE {})
 
-\* framing traces: every deviation from decode-and-apply is also a C06 deviation
-Own(tags) == IF drv' = "framing" /\ tags # {} THEN tags \cup {<<"C06", "outputs">>} ELSE tags
+\* C06: "after every byte all observable outputs equal those obtained by decoding the stream and applying
+\* the supported messages" - every deviation of an output is therefore also a C06 deviation
+Own(tags) == IF tags # {} THEN tags \cup {<<"C06", "outputs">>} ELSE tags
 
 Advance(tags) ==
   /\ l' = l + 1
-  \* beyond 32 outstanding notes: outside C04's premise, nothing more is reported in this run
-  /\ dead' = IF over' THEN {"ALL"} ELSE dead \cup PropsOf(tags)
-  /\ Flag(l, IF over' THEN {} ELSE LiveTags(tags, dead))
+  \* beyond 32 outstanding notes the premise of C04 no longer holds: which note sounds (and hence C06's
+  \* decode-and-apply image of it) is not reported any more in this run; the edge latches, controllers
+  \* and pitch bend still are (the specification models the 33rd note-on as built: not remembered, but
+  \* gate, velocity and rising edge as for any note-on)
+  /\ dead' = (IF over' THEN {"C04", "C06"} ELSE {}) \cup dead \cup PropsOf(tags)
+  /\ Flag(l, LiveTags(tags, (IF over' THEN {"C04", "C06"} ELSE {}) \cup dead))
 
 ---------------------------------------------------------------------------
 TNew ==
